@@ -1,6 +1,10 @@
 #!/bin/sh
-# tools/rf.sh <refactor-id> <PROP>...  : apply refactors/<id>/patch.diff to /repo, run the given checks, undo
+# tools/rf.sh <refactor-id|seed-id> <PROP>...  : apply the kept patch to a scratch copy of /repo/src, run the given checks there
 id=$1; shift
-git -C /repo apply /verif/refactors/$id/patch.diff || exit 3
-for p in "$@"; do (cd /verif && VERIF_EVIDENCE_DIR=/tmp/rf-ev ./check $p 2>&1 | grep -E "^(VIOLATION|ANALYSIS)|^  C[0-9]+\.[A-Z]+\.[0-9a-z]+ \[|Traceback|Error" | cut -c1-400); done
-git -C /repo checkout -- . ; git -C /repo clean -fdq src
+d=/verif/refactors/$id; [ -d $d ] || d=/verif/seeded/$id
+t=$(mktemp -d /tmp/rfsh-XXXXXX)
+cp -r /repo/src $t/src; mkdir -p $t/docs/src; cp -r /repo/docs/src/lvs $t/docs/src/lvs 2>/dev/null
+(cd $t && git apply $d/patch.diff) || { rm -rf $t; exit 3; }
+for p in "$@"; do (cd /verif && VERIF_EVIDENCE_DIR=$t/ev ./check $p --repo $t 2>&1 | grep -E "^(VIOLATION|ANALYSIS)|^  C[0-9]+\.[A-Z]+\.[0-9a-z]+ \[|Traceback" | cut -c1-400); done
+if [ -n "$SHOW" ]; then (cd / && /verif/tools/showfn.py $SHOW $t); fi
+rm -rf $t
